@@ -399,14 +399,19 @@ spif_str_append(spif_str_t self, spif_str_t other)
     ASSERT_RVAL(!SPIF_STR_ISNULL(self), FALSE);
     REQUIRE_RVAL(!SPIF_STR_ISNULL(other), FALSE);
     if (other->size && other->len) {
+        spif_stridx_t olen = other->len;
+
         self->size += other->size - 1;
         if (self->size <= self->len + other->len) {
             /* A still-empty string has no room for the terminator yet. */
             self->size = self->len + other->len + 1;
         }
         self->s = (spif_charptr_t) REALLOC(self->s, self->size);
-        memcpy(self->s + self->len, SPIF_STR_STR(other), other->len + 1);
-        self->len += other->len;
+        /* (other may be self:  copy the text only, then terminate, so that
+           source and destination never overlap.) */
+        memcpy(self->s + self->len, SPIF_STR_STR(other), olen);
+        self->len += olen;
+        self->s[self->len] = 0;
     }
     return TRUE;
 }
